@@ -19,6 +19,9 @@ pub struct Pipe {
     pub writer_closed: bool,
     /// reader end closed (writer gets one free write, then EPIPE)
     pub reader_closed: bool,
+    /// the reader closed while data it had not read was queued: the peer answers with a reset, the
+    /// writer's next write fails at once (no free write)
+    pub reset: bool,
     pub wrote_after_close: bool,
     pub last_at: u64,
     pub from: Option<u32>,
@@ -136,6 +139,7 @@ impl Net {
             writer_closed: false,
             reader_closed: false,
             wrote_after_close: false,
+            reset: false,
             last_at: 0,
             from,
             to,
@@ -203,7 +207,7 @@ impl Net {
         let (from, to) = (self.pipes[tx].from, self.pipes[tx].to);
         if self.pipes[tx].reader_closed {
             // real TCP: the first write after the peer closed succeeds (the RST comes back later)
-            if self.pipes[tx].wrote_after_close {
+            if self.pipes[tx].wrote_after_close || self.pipes[tx].reset {
                 return Err(());
             }
             self.pipes[tx].wrote_after_close = true;
@@ -306,6 +310,9 @@ impl Net {
         let (rx, tx) = (self.endpoints[ep].rx, self.endpoints[ep].tx);
         self.pipes[tx].writer_closed = true;
         self.pipes[rx].reader_closed = true;
+        if !self.pipes[rx].chunks.is_empty() {
+            self.pipes[rx].reset = true;
+        }
     }
 
     pub fn close_listener(&mut self, l: usize) {
